@@ -373,6 +373,35 @@ pub fn long_history(n_max: u64, seed: u64, variant: u8) -> Result<(u64, u64), St
                     }
                 }
             }
+            // however full the table is by now, an equal and then a deeper result for a key it
+            // holds must replace what it holds (or the key is dropped: nothing is always allowed);
+            // tried whenever the number of other keys reaches a power of two, and at the end
+            if (i.is_power_of_two() || i == n_max) && held.is_some() {
+                let (d, _) = held.unwrap();
+                for (nd, np) in [(d, 1usize), (d + 1, 0usize)] {
+                    tt.store(key, pl[np].eval, pl[np].mv, nd, pl[np].bounds);
+                    match tt.retrieve(key).into_entry() {
+                        None => {
+                            dropped += 1;
+                            held = None;
+                            break;
+                        }
+                        Some(e) => {
+                            if !same(&e, nd, np) {
+                                return Err(format!(
+                                    "a table holding {} other keys and a depth-{} entry for one key: after a store of depth {} for that key (an equal or deeper result) retrieve still gives depth {} eval {}: the newer result was not accepted",
+                                    i, d, nd, e.depth, e.eval
+                                ));
+                            }
+                            held = Some((nd, np));
+                        }
+                    }
+                }
+                if held.is_none() {
+                    tt.store(key, pl[0].eval, pl[0].mv, deep, pl[0].bounds);
+                    held = tt.retrieve(key).into_entry().map(|_| (deep, 0));
+                }
+            }
         }
         Ok((n_max, dropped))
     });
